@@ -146,6 +146,28 @@ def check(repo: Repo, run: Run) -> None:
     # S4: the compiled runner evaluates every call on per-call state, as the interpreter does: a Transpiler /
     # CompiledRunner that keeps bindings, an activation or a namespace from an earlier evaluate() answers with another
     # call's data where the interpreter does not (instances shared with C05's storage-channel inventory)
+    # S5: compiled member selection is `<left>.get('name')`; for a name container / activation the interpreter makes a
+    # missing member an error, and the compiled path relies on the KeyError of .get() reaching result().  A .get() (or
+    # the __getattr__ it aliases) that catches the lookup error and returns a default turns the error into null.
+    ev = repo.mod("evaluation")
+    for cname5 in ("NameContainer", "Activation"):
+        if not ev.has_class(cname5):
+            continue
+        for mname5, fn5 in class_methods(ev.cls(cname5)).items():
+            if mname5 not in ("get", "__getattr__", "__getitem__"):
+                continue
+            swallowed = []
+            for h in ast.walk(fn5):
+                if isinstance(h, ast.ExceptHandler):
+                    names5 = [(dotted(x) or "").split(".")[-1] for x in ((h.type.elts if isinstance(h.type, ast.Tuple) else [h.type]) if h.type is not None else [])]
+                    if (not names5 or set(names5) & {"KeyError", "LookupError", "Exception", "NotFound"}) and not any(isinstance(x, ast.Raise) for x in ast.walk(h)) \
+                            and any(isinstance(x, ast.Return) and not isinstance(strip_cast(x.value) if x.value is not None else ast.Constant(value=None), (ast.Subscript, ast.Call))
+                                    for x in ast.walk(h)):
+                        swallowed.append(h)  # returns a default (a further lookup `table[name]` would raise again)
+            run.ob("C03.S5", f"{cname5}.{mname5}|missing member", not swallowed,
+                   f"{cname5}.{mname5} lets the lookup error of a missing name propagate (result() turns it into the error value the interpreter yields)" if not swallowed else
+                   f"{cname5}.{mname5} catches the lookup error and returns a value: compiled `a.zz` on a name container is null where the interpreter reports a missing member (has(a.zz) flips to true)",
+                   ev.loc(swallowed[0]) if swallowed else ev.loc(fn5))
     # X4: "the compiled runner never fails at program-construction time for an expression the interpreter can
     # evaluate": every exception class the effect engine finds leaving Transpiler.transpile (instances of C04.E2,
     # keyed by class with the list of what raises it). An instance is left out when the interpreter lets the same
